@@ -287,6 +287,7 @@ pub fn run(args: &Args) -> Out {
     // lock-order graph harvested over every run of this process (candidates are never verdicts)
     out.count("lock_events", sched::lock_events());
     out.count("pauses_taken", sched::pauses_taken());
+    out.count("worker_delays_taken", sched::worker_delays_taken());
     let cands: Vec<String> = CANDIDATES.lock().unwrap().iter().cloned().collect();
     for c in cands.iter().take(10) {
         out.note(c.clone());
@@ -426,6 +427,10 @@ fn soak(args: &Args, rt: &Arc<tokio::runtime::Runtime>, out: &mut Out) {
         let Some(ctx) = make_ctx((round % 6) as u8, rt.clone()) else { continue };
         let ctx = Arc::new(ctx);
         sched::set_jitter(300, rng.next_u64());
+        // saturation rounds: the engine's blocking-pool search workers (not registered with the run) are
+        // delayed at their lock acquisitions, so that they outlive the 1 ms cold stage, keep their worker
+        // permit and the next timed searches find the worker semaphore exhausted before either stage
+        sched::set_worker_delay(if round % 6 == 5 { 250 } else { 0 });
         let nthreads = 8;
         let labels: Vec<String> = (0..nthreads).map(|i| format!("soak{}", i)).collect();
         let bodies: Vec<Box<dyn FnOnce() + Send + 'static>> = (0..nthreads)
@@ -452,6 +457,14 @@ fn soak(args: &Args, rt: &Arc<tokio::runtime::Runtime>, out: &mut Out) {
             .collect();
         let r = sched::run_threads(&labels, bodies, Duration::from_secs(60));
         sched::set_jitter(0, 1);
+        sched::set_worker_delay(0);
+        if round % 6 == 5 && r.completed && r.deadlock.is_none() {
+            // which load-shedding exits the timed searches of this round actually took
+            let st = ctx.engine.stats();
+            out.count("saturation_partial_result_exits", st.partial_results_returned);
+            out.count("saturation_worker_permit_refusals", st.worker_saturation_count);
+            out.count("saturation_rejected_queries", st.queries_rejected);
+        }
         out.eval();
         harvest_graph(out);
         out.distinct(&(round, args.seed));
